@@ -1144,7 +1144,7 @@ fn main() {
     // distinct texts only
     let mut seen = BTreeSet::new();
     corpus.retain(|(_, s)| seen.insert(s.clone()));
-    let corpus_budget = opts.tier.pick(220usize, corpus.len());
+    let corpus_budget = opts.tier.pick(420usize, corpus.len());
     let mut r0 = Rng::for_case(opts.seed ^ 0xC10, 0);
     r0.shuffle(&mut corpus);
     cx.ev.set_extra("corpus_available", json!(corpus.len()));
@@ -1197,7 +1197,7 @@ fn main() {
     }
 
     // ---- path: generated programs, both as wrapper and through entry extraction ----------------
-    let n_gen = opts.tier.pick(260u64, 6000u64);
+    let n_gen = opts.tier.pick(800u64, 6000u64);
     for gi in 0..n_gen {
         let mut r = Rng::for_case(opts.seed ^ 0xB, gi);
         let g = gen_program(&mut r);
@@ -1231,7 +1231,7 @@ fn main() {
     }
 
     // ---- path: imports vs in-place --------------------------------------------------------------
-    let n_imp = opts.tier.pick(60u64, 1500u64);
+    let n_imp = opts.tier.pick(200u64, 1500u64);
     for ii in 0..n_imp {
         let mut r = Rng::for_case(opts.seed ^ 0xC, ii);
         let c = gen_import_case(&mut r);
